@@ -32,6 +32,25 @@ def build : Nat → List (String × Nat) → Option (LTree × List (String × Na
 def digits (s : String) : Option (List Nat) :=
   s.toList.mapM fun c => if c.isDigit then some (c.toNat - '0'.toNat) else none
 
+/-- the number operations of `Float` (IEEE double; `Float.pow`, `Float.log` … are libm's, as Python's `math`) -/
+def floatOps : Ops Float :=
+  { add := (· + ·), mul := (· * ·), sub := (· - ·), div := (· / ·), rpow := Float.pow,
+    abs := Float.abs, exp := Float.exp, log := Float.log, sin := Float.sin, sqrt := Float.sqrt,
+    ofInt := Float.ofInt }
+
+/-- `name:bits,name:bits,…` → valuation (a name that is not listed ↦ NaN) -/
+def parseEnv (s : String) : Option (String → Float) := do
+  let pairs ← (s.splitOn ",").mapM fun kv =>
+    match kv.splitOn ":" with
+    | [k, b] => b.toNat?.map fun n => (k, Float.ofBits n.toUInt64)
+    | _ => none
+  some fun n => ((pairs.find? fun p => p.1 == n).map (·.2)).getD (0.0 / 0.0)
+
+/-
+`nodestr L,L,… arities`          → `node_to_string` text and 1 iff the parser reads it back as `toPy`
+`treeval L,L,… arities n:b,n:b…` → bit pattern of `evalTreeWith floatOps` (the evaluator of the C02b theorems, over
+                                    `Float`) at the valuation | `nosem` (a label without ESR semantics) | `malformed`
+-/
 def handle : Handler
   | ["nodestr", labels, ar] => do
       let ls := labels.splitOn ","
@@ -42,6 +61,17 @@ def handle : Handler
         let s := NodeString.toString t
         let ok := (ESR.Printer.parse (toks t)) == some (toPy t)
         some s!"{s} {if ok then 1 else 0}"
+      | _ => some "malformed"
+  | ["treeval", labels, ar, env] => do
+      let ls := labels.splitOn ","
+      let ar ← digits ar
+      let ρ ← parseEnv env
+      if ls.length ≠ ar.length then none else
+      match build (ls.length + 1) (ls.zip ar) with
+      | some (t, []) =>
+        match evalTreeWith floatOps t ρ with
+        | some v => some (toString v.toBits.toNat)
+        | none => some "nosem"
       | _ => some "malformed"
   | _ => none
 
